@@ -393,6 +393,38 @@ def bc_cases(draw):
     }  # fmt: skip
 
 
+# ----------------------------------------------------------------------------------------------- grids
+def prop_grid(case, r):
+    """get_1d_grid delivers the points and the spacing the matrices are built for: periodic grids start on the left boundary and
+    leave out the right one, Dirichlet/Neumann grids hold the interior points only (the boundary values live in the vector b)"""
+    size, bc, a, b = case['size'], case['bc'], case['left'], case['right']
+    dx, x = ph.get_1d_grid(size, bc, a, b)
+    r.label(bc)
+    if size >= 3:
+        r.nontrivial([size, bc, a, b])
+    L = b - a
+    tol = 8 * np.finfo(float).eps * max(abs(a), abs(b), abs(L)) * (size + 2)
+    r.check(len(x) == size, 'grid-size', f'{len(x)} points for size {size}')
+    if size >= 2:
+        r.close(np.abs(np.diff(x) - dx).max(), tol, 'grid-equidistant', f'{bc} size={size} [{a},{b}]: spacing differs from dx={dx!r}')
+    if bc == 'periodic':
+        r.close(abs(x[0] - a), tol, 'grid-left', f'periodic grid starts at {x[0]!r}, boundary {a!r}')
+        r.close(abs(x[-1] + dx - b), tol, 'grid-right', f'periodic grid: last point + dx = {x[-1] + dx!r}, right boundary {b!r}')
+    else:
+        r.close(abs(x[0] - dx - a), tol, 'grid-left', f'{bc}: first point - dx = {x[0] - dx!r}, left boundary {a!r}')
+        r.close(abs(x[-1] + dx - b), tol, 'grid-right', f'{bc}: last point + dx = {x[-1] + dx!r}, right boundary {b!r}')
+
+
+def grid_enum(tier):
+    out = []
+    for bc in ('periodic', 'dirichlet', 'neumann', 'dirichlet-zero', 'neumann-zero'):
+        for size in (1, 2, 3, 4, 7, 8, 15, 16, 31, 100):
+            for a, b in ((0.0, 1.0), (-1.0, 1.0), (-0.5, 0.5), (2.0, 2.5), (-20.0, 20.0), (0.0, 2 * math.pi)):
+                out.append({'size': size, 'bc': bc, 'left': a, 'right': b})
+    return out
+
+
+
 def known_match(fid, clause, case, failure):
     return False
 
@@ -400,6 +432,7 @@ def known_match(fid, clause, case, failure):
 def clauses(tier):
     return [
         Clause('stencil-grid', prop_stencil, enumerate=stencil_grid, exhaustive=True),
+        Clause('grid-points', prop_grid, enumerate=grid_enum, exhaustive=True),
         Clause('stencil-custom', prop_stencil, strategy=custom_stencils(), examples={'quick': 600, 'thorough': 10000}),
         Clause('periodic', prop_periodic, strategy=periodic_cases(), examples={'quick': 600, 'thorough': 10000}),
         Clause('boundary', prop_bc, strategy=bc_cases(), examples={'quick': 800, 'thorough': 12000}),
